@@ -119,9 +119,12 @@ def is_template_parse_payload(an, prog, e, body, adt, field):
 
 
 def rule_valid_before_insert(ctx, prog, an, rule, ca=None):
-    """IPFIX cache writes are dominated by is_valid()==true on the stored template, and is_valid reads field_length."""
+    """IPFIX cache writes are dominated by <validity predicate>(stored template)==true, and that predicate reads
+    TemplateField.field_length. The predicate is found by role: the crate function / trait method returning bool
+    that is called on the very value being stored and whose true edge dominates the write (its name is free)."""
     ca = ca or CacheAccess(prog, an)
     n = 0
+    preds = set()
     # (writes made inside a private helper are seen from the helper's call sites, see write_sites)
     for w in write_sites(prog, an, ca):
         if w["adt"] != "variable_versions::ipfix::IPFixParser" or w["kind"] not in ("insert", "extend"):
@@ -130,31 +133,45 @@ def rule_valid_before_insert(ctx, prog, an, rule, ca=None):
         b = w["body"]
         val, key, src = w["val"], w["key"], w["src"]
         vcore = canon(peel(val))
-        guards = guards_by_call(an, b, set(["variable_versions::ipfix::CommonTemplate::is_valid"]))
         ok = False
-        why = "no is_valid() guard found"
-        for (cb, cexpr, sw, tt, ff) in guards:
-            recv = canon(peel(cexpr[3][0]))
-            if recv == vcore and b.edge_dominates((sw, tt), w["block"]):
+        why = "no validity guard found: no bool-returning crate call on the stored value dominates the write"
+        for blk in sorted(b.live_blocks()):
+            t = b.term(blk)
+            if t["k"] != "switch":
+                continue
+            e, neg = strip_not(an.op(b, t["op"]))
+            if not (e[0] == "call" and e[2] is not None and e[2].local and e[3]):
+                continue
+            if t.get("opty") != "bool":
+                continue
+            be = bool_edges(t, neg)
+            if not be:
+                continue
+            recv = canon(peel(e[3][0]))
+            if recv != vcore:
+                if not ok:
+                    why = "%s is called on %s, the stored value is %s" % (e[2].nsyn, recv[:120], vcore[:120])
+                continue
+            if b.edge_dominates((blk, be[0]), w["block"]):
                 ok = True
-                why = "insert at %s dominated by is_valid()==true (%s) on the inserted value" % (b.line(w["block"]), b.line(cb))
-            elif recv != vcore:
-                why = "is_valid() is called on %s, the stored value is %s" % (recv[:120], vcore[:120])
-            else:
-                why = "insert at %s is reachable without passing is_valid()==true" % b.line(w["block"])
+                preds.add(e[2].nsyn)
+                why = "insert at %s dominated by %s()==true (%s) on the inserted value" % (b.line(w["block"]), e[2].nsyn.rsplit("::", 1)[-1], b.line(e[1]))
+            elif not ok:
+                why = "insert at %s is reachable without passing %s()==true" % (b.line(w["block"]), e[2].nsyn.rsplit("::", 1)[-1])
         ctx.ob(rule, b.path, "valid-before-write:%s" % w["field"], ok, why, site=b.line(w["block"]))
     ctx.floor(rule, "ipfix", "IPFIX cache write sites", n, 2)
-    # is_valid must look at field_length
-    iv = [bb for p, bb in prog.bodies.items() if p.endswith("CommonTemplate::is_valid") or "CommonTemplate::is_valid::" in p]
-    reads = False
-    for bb in iv:
-        for blk, i, s in bb.stmts():
-            if s["k"] == "assign":
-                for pl in [s["rv"].get("place")] + [o.get("place") for o in rv_operands(s["rv"]) if o]:
-                    if pl and any(e.get("name") == "field_length" for e in pl.get("p", [])):
-                        reads = True
-    ctx.ob(rule, "variable_versions::ipfix::CommonTemplate::is_valid", "reads-field_length", reads,
-           "is_valid (with its closures) %s TemplateField.field_length" % ("reads" if reads else "never reads"))
+    # the predicate must look at field_length (in its own body, its impls, or their closures)
+    for pth in sorted(preds) or ["<ipfix validity predicate>"]:
+        iv = [bb for p, bb in prog.bodies.items() if p == pth or p.startswith(pth + "::") or (p.endswith("::" + pth.rsplit("::", 1)[-1]) and bb.parent_impl and pth.rsplit("::", 1)[0] in (bb.parent_impl.get("trait") or ""))]
+        reads = False
+        for bb in iv:
+            for blk, i, s2 in bb.stmts():
+                if s2["k"] == "assign":
+                    for pl in [s2["rv"].get("place")] + [o.get("place") for o in rv_operands(s2["rv"]) if o]:
+                        if pl and any(e.get("name") == "field_length" for e in pl.get("p", [])):
+                            reads = True
+        ctx.ob(rule, "ipfix-validity-predicate", "reads-field_length", reads,
+               "%s (with its closures) %s TemplateField.field_length" % (pth, "reads" if reads else "never reads"))
 
 
 def rule_template_reaches_cache(ctx, prog, an, rule, ca=None, only_adt=None):
